@@ -161,7 +161,7 @@ func pickLimits(r *Rand, segs [][]byte) (uint64, uint) {
 func genHostile(out *Out, r *Rand, tier string) {
 	genRec(out, r, tier)
 	emitSchema(out)
-	n := 2500
+	n := 2000
 	if tier == "thorough" {
 		n = 60000
 	}
